@@ -987,3 +987,99 @@ def default_inline_policy(t, callee):
     if callee.get("impl_trait") or callee.get("trait_default"):
         return False
     return len(callee["blocks"]) <= 150
+
+
+# ------------------------------------------------------------------------------------------
+# control flow under a known value of an enum parameter (finite case analysis)
+
+
+def reach_under_variant(fn, param_local, adt, variant, discr, variants_by_name, F=None):
+    """blocks reachable from the entry when parameter `param_local` (of enum type `adt`, a field-less enum) holds `variant`:
+    switches on its discriminant, and on the result of comparing it (==, !=) with a literal variant of the same enum, take only
+    the edge that value selects; every other branch is followed both ways"""
+    blocks = fn["blocks"]
+    du = DefUse(fn)
+
+    def is_param(op_or_pl):
+        pl = op_or_pl if "l" in op_or_pl else op_place(op_or_pl)
+        if pl is None:
+            return False
+        for o in provenance(fn, du, pl):
+            if not (o.kind == "arg" and o.local == param_local and not [p for p in o.proj if not p.startswith(" as ")]):
+                return False
+        return True
+
+    def lit_variant(op):
+        outs = set()
+        for o in provenance(fn, du, op):
+            if o.kind == "agg" and o.rv.get("adt") == adt:
+                outs.add(o.rv["variant"])
+            elif o.kind == "const" and F is not None and "promoted" in o.const and "uneval" in o.const:
+                body = F.promoted.get((o.const["uneval"], o.const["promoted"]))
+                hit = []
+                if body is not None:
+                    for bi2, si2, st2 in stmts(body):
+                        if st2["rv"]["k"] == "agg" and st2["rv"].get("adt") == adt:
+                            hit.append(st2["rv"]["variant"])
+                outs |= set(hit) if len(hit) == 1 else {None}
+            elif o.kind == "const":
+                txt = o.const.get("txt", "")
+                hit = [n for n in variants_by_name if txt.endswith("::" + n) or ("::" + n + " ") in txt or ("::" + n + ")") in txt]
+                if "int" in o.const and not hit:
+                    hit = [n for n, d in variants_by_name.items() if d == o.const["int"]]
+                outs |= set(hit) if hit else {None}
+            else:
+                outs.add(None)
+        return outs.pop() if len(outs) == 1 else None
+
+    known = {}   # local -> ("discr",) | ("bool", b)
+    for bi, b in enumerate(blocks):
+        for s in b["s"]:
+            rv = s["rv"]
+            if rv["k"] == "discr" and is_param(rv["pl"]):
+                known[s["lhs"]["l"]] = ("discr",)
+        t = b["t"]
+        if t["k"] == "call" and len(t["args"]) == 2 and (t.get("callee") or "") in ("std::cmp::PartialEq::eq", "std::cmp::PartialEq::ne"):
+            a, c = t["args"]
+            other = None
+            if is_param(a):
+                other = lit_variant(c)
+            elif is_param(c):
+                other = lit_variant(a)
+            if other is not None:
+                eq = (other == variant)
+                known[t["dest"]["l"]] = ("bool", eq if t["callee"].endswith("::eq") else not eq)
+    seen = {0}
+    st = [0]
+    while st:
+        x = st.pop()
+        b = blocks[x]
+        t = b["t"]
+        nxt = None
+        if t["k"] == "switch":
+            pl = op_place(t["discr"])
+            kv = None
+            if pl is not None and not pl["p"]:
+                kv = known.get(pl["l"])
+                if kv is None:
+                    # copies of a known local
+                    for d in du.defs.get(pl["l"], []):
+                        if d[0] == "stmt" and d[3]["rv"]["k"] == "use":
+                            p2 = op_place(d[3]["rv"]["op"])
+                            if p2 is not None and not p2["p"] and p2["l"] in known:
+                                kv = known[p2["l"]]
+                        elif d[0] == "stmt" and d[3]["rv"]["k"] == "unop" and d[3]["rv"].get("op") == "Not":
+                            p2 = op_place(d[3]["rv"]["a"])
+                            if p2 is not None and p2["l"] in known and known[p2["l"]][0] == "bool":
+                                kv = ("bool", not known[p2["l"]][1])
+            if kv is not None:
+                val = discr if kv[0] == "discr" else (1 if kv[1] else 0)
+                tm = dict((v, tb) for v, tb in t["targets"])
+                nxt = [tm.get(val, t["otherwise"])]
+        if nxt is None:
+            nxt = block_succs(b)
+        for y in nxt:
+            if y is not None and y not in seen and not blocks[y]["cleanup"]:
+                seen.add(y)
+                st.append(y)
+    return seen
